@@ -963,6 +963,87 @@ func main() {
 			progs = append(progs, "spanfile."+n+":"+strings.Join(p, ","))
 		}
 		emitStrList("collectionLockPrograms", progs, okl)
+		// the first two statements of every public method: the lock is taken before anything else and
+		// released by a deferred call, so the whole body is one critical section (C10 linearizability)
+		var heads []string
+		for _, n := range []string{"GetDocumentCount", "ComputeStats", "GetOptions", "GetAllIDs", "Close",
+			"AddDocument", "GetDocument", "UpdateDocument", "removeDocument", "Search"} {
+			fd := method("collection.go", "Collection", n)
+			if fd == nil || len(fd.Body.List) < 2 {
+				heads = append(heads, n+": ?")
+				continue
+			}
+			a := strings.Join(strings.Fields(src(fd.Body.List[0])), " ")
+			b := strings.Join(strings.Fields(src(fd.Body.List[1])), " ")
+			heads = append(heads, n+": "+a+"; "+b)
+		}
+		emitStrList("publicMethodHeads", heads, len(heads) > 0)
+		// readers do not write: in every function that runs under the collection's read lock, no
+		// assignment / inc-dec whose target is rooted at the receiver, and no call of a mutating method
+		var rw []string
+		rootOf := func(e ast.Expr) string {
+			for {
+				switch x := e.(type) {
+				case *ast.SelectorExpr:
+					e = x.X
+				case *ast.IndexExpr:
+					e = x.X
+				case *ast.StarExpr:
+					e = x.X
+				case *ast.ParenExpr:
+					e = x.X
+				case *ast.SliceExpr:
+					e = x.X
+				case *ast.Ident:
+					return x.Name
+				default:
+					return ""
+				}
+			}
+		}
+		mutators := map[string]bool{"WriteRecord": true, "RemoveRecord": true, "addPoint": true, "removePoint": true,
+			"insert": true, "remove": true, "split": true, "writeAt": true, "markSpanAsFreed": true, "appendToFile": true,
+			"allocateSpan": true, "addFreeSpan": true, "freeSuperseded": true, "Close": true, "scanFile": true}
+		type rf struct{ file, recv, name string }
+		readers := []rf{
+			{"collection.go", "Collection", "GetDocumentCount"}, {"collection.go", "Collection", "ComputeStats"},
+			{"collection.go", "Collection", "GetOptions"}, {"collection.go", "Collection", "GetAllIDs"},
+			{"collection.go", "Collection", "computeAverageDistance"}, {"collection.go", "Collection", "GetDocument"},
+			{"collection.go", "Collection", "getDocument"}, {"collection.go", "Collection", "Search"},
+			{"spanfile.go", "SpanFile", "getSpanReader"}, {"spanfile.go", "SpanFile", "ReadRecord"},
+			{"spanfile.go", "SpanFile", "IterateRecords"}, {"spanfile.go", "SpanFile", "IterateSortedRecords"},
+			{"spanfile.go", "SpanFile", "GetStats"}, {"spanfile.go", "SpanReader", "getStream"},
+			{"lshtree.go", "lshTree", "search"},
+		}
+		found := 0
+		for _, r := range readers {
+			fd := method(r.file, r.recv, r.name)
+			if fd == nil || fd.Recv == nil || len(fd.Recv.List) == 0 || len(fd.Recv.List[0].Names) == 0 {
+				continue
+			}
+			found++
+			recv := fd.Recv.List[0].Names[0].Name
+			ast.Inspect(fd.Body, func(x ast.Node) bool {
+				switch st := x.(type) {
+				case *ast.AssignStmt:
+					for _, l := range st.Lhs {
+						if _, isIdent := l.(*ast.Ident); !isIdent && rootOf(l) == recv {
+							rw = append(rw, r.name+": "+strings.Join(strings.Fields(src(st)), " "))
+						}
+					}
+				case *ast.IncDecStmt:
+					if _, isIdent := st.X.(*ast.Ident); !isIdent && rootOf(st.X) == recv {
+						rw = append(rw, r.name+": "+strings.Join(strings.Fields(src(st)), " "))
+					}
+				case *ast.CallExpr:
+					if f, ok := st.Fun.(*ast.SelectorExpr); ok && mutators[f.Sel.Name] && rootOf(f.X) == recv {
+						rw = append(rw, r.name+": call "+strings.Join(strings.Fields(src(st.Fun)), " "))
+					}
+				}
+				return true
+			})
+		}
+		emitStrList("readerWrites", rw, found == len(readers))
 		// the same table in numeric form: per method a list of (kind, lock, callee)
 		// kind: 0 RLock, 1 Lock, 2 RUnlock, 3 Unlock, 4 call; lock: 0 Collection.mutex, 1 SpanFile.fileMutex
 		{
